@@ -159,6 +159,23 @@ func C05(sp *spec.Spec, ex *rt.Exchange) *Verdict {
 				}
 			}
 		}
+		if !oc.Custom {
+			// cookies the design assigns to the error (the id of a default-type error)
+			set := cookiesOf(w.Header, "Set-Cookie")
+			for _, ck := range he.Cookies {
+				if ck.Attr != "id" {
+					continue
+				}
+				name := ck.WireName()
+				got, present := set[name]
+				switch {
+				case !present:
+					v.add("declared-error-cookie-missing:"+placementClass(he, sv, m), "error %q: the design carries the id in cookie %q, the response sets %v", oc.ErrName, name, cookieNames(set))
+				case got != oc.ErrID:
+					v.add("declared-error-cookie-value:"+placementClass(he, sv, m), "error %q: cookie %q = %q, the id returned is %q", oc.ErrName, name, got, oc.ErrID)
+				}
+			}
+		}
 		if ce.Name != oc.ErrName {
 			var tags []string
 			if oc.Custom {
@@ -233,6 +250,15 @@ func placementClass(he *spec.HTTPError, sv *spec.Service, m *spec.Method) string
 		}
 	}
 	return "api-level"
+}
+
+func cookieNames(m map[string]string) []string {
+	var out []string
+	for k := range m {
+		out = append(out, k)
+	}
+	sort.Strings(out)
+	return out
 }
 
 func headerNames(h map[string][]string) []string {
